@@ -27,6 +27,16 @@ CHECKS["C18"] = (
     "DESIGN.md section 6, C18",
 )
 
+CHECKS["C11"] = (
+    "Hypothesis-generated parameter documents swept over temperature; validity predicates + reference formula",
+    "Generated-input search over coefficient vectors in the optimiser's box (7 shapes, faces and corner values constructed) with "
+    "each model loaded by from_dict and evaluated through predict() on a dense temperature sweep that contains every balance "
+    "point and its float neighbours; Lipschitz continuity, flat segment, monotonicity, line/asymptote, load sign/exclusivity/"
+    "additivity predicates and agreement with an independent formula. 4k documents quick / 64k thorough.",
+    "Trusted: vf/ref/daily_curve.py (documented piecewise formula) and the tolerances stated in DESIGN.md section 4.",
+    "DESIGN.md section 6, C11",
+)
+
 PENDING_REASON = "check not built yet in this session (work in progress; property-based testing applies and is planned, see DESIGN.md section 6)"
 
 
